@@ -16,6 +16,8 @@ ALIAS.queue              : the queue the thread waits on is the object posts go 
 """
 import ast
 
+from sa.boolflow import must_atoms
+
 from sa.model import AnalysisError, walk_shallow, dotted, norm
 from sa.util import cfg_of, guarded_by_edge, strip_not, signal_const
 from sa.context import callgraph
@@ -134,16 +136,12 @@ def check(run, model, tier):
             rec, p2 = queues.is_nonempty_test(t.ast, selfn + '.queue')
             if rec and guarded_by_edge(g, s, t, 'true' if p2 else 'false'):
                 ne = True
-            if any(signal_const(x) == 'STOP_ACTIVE_OBJECT_SIGNAL' for x in ast.walk(t.ast)):
-                cp = t.ast
-                if isinstance(cp, ast.Compare) and isinstance(cp.ops[0], (ast.NotEq, ast.IsNot)) and guarded_by_edge(g, s, t, 'true'):
-                    stop = True
-                if isinstance(cp, ast.Compare) and isinstance(cp.ops[0], (ast.Eq, ast.Is)) and guarded_by_edge(g, s, t, 'false'):
-                    stop = True
             i2, p2 = strip_not(t.ast)
             if isinstance(i2, ast.Call) and isinstance(i2.func, ast.Attribute) and i2.func.attr == 'is_set' and dotted(i2.func.value) == fab_p \
                     and guarded_by_edge(g, s, t, 'true' if p2 else 'false'):
                 fab = True
+        atoms = must_atoms(g, s, re_.node, params=re_.params)
+        stop = any(op in ('NotEq', 'IsNot') and ('STOP_ACTIVE_OBJECT_SIGNAL' in l or 'STOP_ACTIVE_OBJECT_SIGNAL' in r) for (l, op, r) in atoms)
         run.inst('CONSUMER.run_event', re_, 'step only when the queue is non-empty', ne,
                  '' if ne else 'next_rtc is called without a dominating non-empty test of the queue', node=s.ast, obligation=True)
         run.inst('CONSUMER.run_event', re_, 'step only when the head is not the stop signal', stop,
